@@ -55,7 +55,7 @@ def check(prog, run):
         bb, t, name = inner[0]
         for (pname, argpos) in want:
             n += 1
-            e = sym.expr(b, t["args"][argpos])
+            e = common.inline_expr(u, sym.expr(b, t["args"][argpos]))       # a conversion helper is looked through
             srcs = sym.sources(e)
             ops_ = sym.ops(e)
             params = {s[2] for s in srcs if s[0] == "arg"}
